@@ -47,7 +47,7 @@ class S(vlib.Spec):
         "Go maps as association lists with pairwise distinct keys, pointers (descriptors, value_map keys) as positions; reflect.Type as an abstract type with a decidable equality",
         "harness/cmd/c15 (drives GetFileDescriptor / Marshal / Unmarshal / RegisterAST / BuildFileDescriptor and every lookup in process; per program one scratch module with the code the real thriftgo binary generates with with_reflection), "
         "harness/gendrv + gendrv/driver/c15_reflect.go (dumps what the generated packages registered and checks type <-> descriptor), harness/refldump, astdump, idlast, idlgen, coqfmt, casefile, lib/vlib.py",
-        "the semantic pass (ty_ref / ty_category / sv_ref of the resolved AST) is the reference for what a qualified name means (property C05 is about that pass)",
+        "the semantic pass (ty_ref / ty_category / sv_ref of the resolved AST) is the reference for what a qualified name means: evaluated per case on the real resolved AST, and proved against property C05's model Idl/Resolve.v (C15_qualified_type_lookup_right, C15_base_service_lookup_right; that model is tied to the real pass by C05's own check)",
     ]
     assumptions = [
         "descriptor_faithful takes the parser's guarantee that the annotations of a node have pairwise distinct keys (file_annos_ok: Annotations.Append groups repeated keys) as a decidable premise; the correspondence never sees it violated",
